@@ -3,6 +3,7 @@ package props
 import (
 	"fmt"
 	"go/ast"
+	"go/types"
 	"sort"
 
 	"golang.org/x/tools/go/ssa"
@@ -34,7 +35,7 @@ func c17(c *core.Check) {
 	c.Explain = "COVER + LINT + SIB on tool/trimmer/dump. (1) Every attribute of every AST node type (fields enumerated through go/types; resolution-only attributes on a reasoned ignore list) is read somewhere in the call-graph closure of DumpIDL: an attribute that is never read cannot be printed, so the re-parsed AST would differ in it. " +
 		"(2) index/len lint: inside `for i, x := range S` a comparison of i with len(T)±c must have T = S (separator placement). " +
 		"(3) argument printing and throws printing are alpha-equivalent loops (compared with each other after renaming loop variables and abstracting the ranged slice). " +
-		"NOT decided: escaping of literals, numeric formatting, re-parse equality as behaviour; the rule is per node type, so that arguments/throws are printed without their defaults and annotations (struct fields are) is invisible to it."
+		"NOT decided: escaping of literals, numeric formatting, re-parse equality as behaviour; (1b) additionally every loop that prints a list of fields (struct fields, arguments, throws) reads id, name, requiredness, type, default and annotations."
 	c.RuleText = "one obligation per (node type, attribute), per index/len comparison, per sibling pair"
 	c.Assume = []string{"VTA call graph over-approximates calls"}
 	prog := c.Prog
@@ -94,6 +95,48 @@ func c17(c *core.Check) {
 			}
 		}
 	}
+	// (1b) every place that prints a list of fields reads every printable Field attribute
+	nLists := 0
+	for _, file := range pk.Syntax {
+		for _, d := range file.Decls {
+			fd, ok := d.(*ast.FuncDecl)
+			if !ok || fd.Body == nil || fd.Name.Name == "DumpIDL_V1" {
+				continue
+			}
+			ast.Inspect(fd.Body, func(nd ast.Node) bool {
+				rs, ok := nd.(*ast.RangeStmt)
+				if !ok {
+					return true
+				}
+				tv, ok := pk.TypesInfo.Types[rs.X]
+				if !ok {
+					return true
+				}
+				sl, ok := tv.Type.Underlying().(*types.Slice)
+				if !ok || !rules.IsNamed(sl.Elem(), parserPath, "Field") {
+					return true
+				}
+				nLists++
+				reads := map[string]bool{}
+				for _, a := range rules.CollectAccesses(pk.TypesInfo, rs.Body, parserPath, fd.Name.Name) {
+					if a.Type == "Field" && !a.Write {
+						reads[a.Field] = true
+					}
+				}
+				var missing []string
+				for _, f := range []string{"ID", "Name", "Requiredness", "Type", "Default", "Annotations"} {
+					if !reads[f] {
+						missing = append(missing, f)
+					}
+				}
+				key := fmt.Sprintf("dump.%s/range %s", fd.Name.Name, rules.ExprString(rs.X))
+				c.Decide(len(missing) == 0, "field-list-printer", key, prog.Rel(rs.Pos()), "prints id, name, requiredness, type, default and annotations of each field",
+					fmt.Sprintf("fields of %s are printed without %v: these attributes are lost on dump/re-parse", rules.ExprString(rs.X), missing))
+				return true
+			})
+		}
+	}
+	c.Min("field-list-printer", 3)
 	c.Analysed["index_len_sites"] = n
 	c.Min("index-len", 4)
 	// (3) siblings
